@@ -98,6 +98,57 @@ class _SuperProxy:
     """zero-argument super() inside Filter.as_const"""
 
 
+def install_const_specs(I):
+    """dependency specs for what the real visit_Const asks about an opaque constant (math.isfinite, type(), int.bit_length, hex)"""
+    isfinite_fn = z3.Function("math.isfinite", KIND_SORT_OBJ, z3.BoolSort())
+
+    def isfinite(I_, st, args, kwargs, node):
+        a = args[0]
+        if isinstance(a, Sym) and a.k == "obj":
+            return [(st, Sym(isfinite_fn(a.t), "bool"))]
+        return [(st, math.isfinite(a))]
+
+    I.specs[("fn", id(math.isfinite))] = isfinite
+
+    # visit_Const (0a6e772): `type(val) is int and val.bit_length() >= 10_000` -> hex(val).  type() of the constant is opaque: the two
+    # outcomes of the whole test are explored through a symbolic flag; hex(v) is another literal text of v (C08.const.roundtrip)
+    base_type = I.specs.get(("fn", id(type)))
+
+    class _OpaqueType:
+        pass
+
+    OPAQUE = _OpaqueType()
+
+    def type_spec(I_, st, args, kwargs, node):
+        if len(args) == 1 and isinstance(args[0], Sym) and args[0].k == "obj":
+            s2 = st.fork()
+            st.assume(z3.Bool("node.value is an int"))
+            s2.assume(z3.Not(z3.Bool("node.value is an int")))
+            return [(st, int), (s2, OPAQUE)]
+        return base_type(I_, st, args, kwargs, node) if base_type else None
+
+    I.specs[("fn", id(type))] = type_spec
+    prev_method_obj = I.specs.get("method_obj")
+
+    def method_obj(I_, st, args, kwargs, node):
+        if args[1] == "bit_length":
+            return [(st, fresh("bit_length", "int"))]
+        return prev_method_obj(I_, st, args, kwargs, node) if prev_method_obj else None
+
+    I.specs["method_obj"] = method_obj
+    prev_ga = I.specs.get("getattr_obj")
+
+    def getattr_bitlen(I_, st, args, kwargs, node):
+        from pyvc.values import BoundMethod
+        if args[1] == "bit_length":
+            return [(st, BoundMethod(args[0], "bit_length"))]
+        return prev_ga(I_, st, args, kwargs, node) if prev_ga else None
+
+    I.specs["getattr_obj"] = getattr_bitlen
+    I.specs[("fn", id(hex))] = lambda I_, st, args, kwargs, node: [(st, Sym(models.py_repr_obj(args[0].t), "str", {"repr"}))] if isinstance(args[0], Sym) else [(st, hex(args[0]))]
+
+
+
 def install_common(I, owner=None):
     """Specs used in BOTH runs.  `owner` (a dict) receives the node reference for super()."""
     emit.install(I)
@@ -134,15 +185,7 @@ def install_common(I, owner=None):
 
     I.specs[("fn", id(inspect.iscoroutinefunction))] = iscoro
 
-    isfinite_fn = z3.Function("math.isfinite", KIND_SORT_OBJ, z3.BoolSort())
-
-    def isfinite(I_, st, args, kwargs, node):
-        a = args[0]
-        if isinstance(a, Sym) and a.k == "obj":
-            return [(st, Sym(isfinite_fn(a.t), "bool"))]
-        return [(st, math.isfinite(a))]
-
-    I.specs[("fn", id(math.isfinite))] = isfinite
+    install_const_specs(I)
 
     base_getattr_obj = I.specs.get("getattr_obj")
 
@@ -247,6 +290,9 @@ def install_as_const(I, owner):
 
     I.specs[("fn", id(dict))] = dict_spec
 
+    # /repo 745b182: folding stops (Impossible) at a value has_safe_repr refuses; its own contract is C08.const.roundtrip / C34
+    I.specs[("fn", id(C.has_safe_repr))] = A.abstract_fn("has_safe_repr", returns="bool")
+    I.specs["jinja2.compiler:has_safe_repr"] = I.specs[("fn", id(C.has_safe_repr))]
     I.specs["getattr_dyn"] = A.abstract_fn("py.getattr", returns="obj", raises=[("any", Exception)])
     I.specs["getitem_obj"] = lambda I_, st, args, kwargs, node: A.abstract_fn("py.getitem", returns="obj", raises=[("any", Exception)])(I_, st, args, kwargs, node)
 
@@ -592,6 +638,7 @@ class SchemaEval:
         self.sc, self.ph, self.pc, self.termsym, self.truth_term = sc, ph, pc, termsym, truth_term
         self.problems = problems
         self.nonvolatile = implied(pc, z3.Not(VOLATILE))
+        self.strict_rt = False  # MarkSafeIfAutoescape: the emitted code reads the run-time flag, which as_const cannot know (see RT_EVALCTX)
 
     # -- decisions
     def truthy(self, t):
@@ -617,7 +664,7 @@ class SchemaEval:
     def flag(self, name):
         if name == "volatile":
             return ("const", False)  # never set by generated code
-        if name == "autoescape" and self.nonvolatile:
+        if name == "autoescape" and self.nonvolatile and not self.strict_rt:
             if implied(self.pc, AUTOESCAPE):
                 return ("const", True)
             if implied(self.pc, z3.Not(AUTOESCAPE)):
@@ -677,7 +724,10 @@ class SchemaEval:
         if isinstance(n, ast.Attribute):
             nm = emit.call_name(n)
             if nm == "context.eval_ctx":
-                return ("EVALCTX",)
+                # the eval context the code RUNS under.  It is the compile-time one only for code that runs in place; a macro / call block
+                # body runs under the caller's, a block function under the eval context of where the block is placed or of the extending
+                # template - and no frame is marked volatile for that (hunt C08_1, C08_2)
+                return ("RT_EVALCTX",)
             if nm in ("context.eval_ctx.autoescape", "context.eval_ctx.volatile"):
                 return self.flag(n.attr)
             return ("global", nm or ast.unparse(n))
@@ -906,6 +956,7 @@ class Fold(Task):
         t2 = wrap.format(txt) if wrap else txt
         tree = emit.parse_expr(t2)
         ev = SchemaEval(sc, ph, pc, res.termsym, lambda s: I.truth_term(st, s), problems)
+        ev.strict_rt = self.cls_name == "MarkSafeIfAutoescape"
         if self.cls_name == "Keyword":
             k = tree.keywords[0]
             key = ph.get(k.arg)
@@ -1010,6 +1061,12 @@ class Fold(Task):
                         continue
                     b = expand_sig(b, self.shape, set(st.notes) | set(sc.notes))
                     ok, why = self.equal(a, b, list(st.pc) + list(sc.pc))
+                    if not ok and ("RT_EVALCTX" in repr(b) or (self.cls_name == "MarkSafeIfAutoescape" and "rtflag" in repr(b))):
+                        why = ("as_const uses the COMPILE-TIME eval context, the emitted code reads context.eval_ctx at run time; they differ whenever the code runs under "
+                               "another eval context than it was compiled with (macro / call block called from, block placed in or extended into a region with a different "
+                               "autoescape setting) and such frames are not volatile; " + why)
+                        fails.append((why, sc, "compile-time-eval_ctx", "run-time-eval_ctx"))
+                        continue
                     if not ok:
                         if "update-over-explicit-keywords" in repr(a):
                             why = ("as_const merges **dyn_kwargs into the explicit keyword arguments (kwargs.update: the later value wins) while the emitted call "
@@ -1029,6 +1086,19 @@ class Fold(Task):
                                                    "schema_text": sc.describe()[:300] if sc else None}))
             else:
                 out.append(Res(nm, "discharged", "pyvc-path", time.time() - t1, f"{matched} schema instantiations agree", self.kind))
+        if self.cls_name in ("And", "Or"):
+            # the visitor visits BOTH operands in a frame that is not soft (unknown filter / test names and reserved keyword arguments in them are
+            # compile-time errors); a fold that never looked at the right operand silently drops those diagnostics (hunt C08_5)
+            for i, (st, v) in enumerate(rs):
+                if isinstance(v, Raised) or not satisfiable(st.pc):
+                    continue
+                seen = {st.get(e.args[0]).path for e in st.trace if e.kind == "call" and e.name == "child.as_const" and isinstance(e.result, Sym)}
+                ok = {"node.left", "node.right"} <= seen
+                nm = f"{self.base}.folds_only_when_every_visited_child_is_constant#p{i}"
+                out.append(Res(nm, "discharged" if ok else "refuted", "pyvc-path", 0,
+                               "" if ok else f"{self.cls_name}.as_const returns a constant after evaluating only {sorted(seen)}: the other operand is dropped from the template, so the "
+                                             "compile-time checks of visit_Filter / visit_Test / signature on it never run (unknown filter or test name renders instead of raising "
+                                             "TemplateAssertionError)", self.kind, None if ok else {"class": self.cls_name, "clause": "short_circuit", "evaluated": sorted(seen)}))
         if self.cls_name == "Concat":
             # in a volatile frame as_const refuses (checked above), so the emitted code decides: which join runs must follow the
             # RUN-TIME autoescape flag, like it follows the compile-time flag in a non-volatile frame
@@ -1050,7 +1120,7 @@ class Fold(Task):
                                        f"(generated code never sets eval_ctx.volatile, so str_join always runs and Markup operands are escaped): `{txt[:120]}`", self.kind,
                                        witness={"class": "Concat", "shape": self.shape, "clause": "volatile_schema", "selector": sel}))
                     break
-        if n_ret == 0 and self.cls_name not in ("Filter",) :
+        if n_ret == 0 and self.cls_name not in ("Filter", "MarkSafeIfAutoescape"):  # a class may refuse to fold altogether
             out.append(Res(self.name + ".paths", "error", "pyvc", 0, "as_const has no returning path", self.kind))
         return out
 
@@ -1058,6 +1128,8 @@ class Fold(Task):
         w = res.witness or {}
         if w.get("clause") == "raises":
             return f"{w.get('class')}:raises:{w.get('exception')}"
+        if w.get("clause") == "short_circuit":
+            return f"{w.get('class')}:short-circuit-drops-operand"
         if w.get("clause") == "volatile_schema":
             return f"Concat:volatile-selector:{w.get('selector')}"
         return f"{w.get('class')}:{w.get('as_const')}!={w.get('schema')}"
@@ -1429,6 +1501,9 @@ def configure_signature(I):
         return [(st, Sym(ISKW(to_term(a, "str")), "bool"))]
 
     I.specs[("fn", id(C.is_python_keyword))] = iskw
+
+    isascii_fn = z3.Function("str.isascii", z3.StringSort(), z3.BoolSort())
+    I.specs["str.isascii"] = lambda I_, st, args, kwargs, node: [(st, Sym(isascii_fn(to_term(args[0], "str")), "bool"))]
 
 
 def signature_predicate(shape):
@@ -1835,11 +1910,16 @@ def modifier_predicate(n_options, scoped):
         if scoped:
             first, last = body[0], body[-1]
             ok_first = isinstance(first, ast.Assign) and isinstance(first.value, ast.Call) and emit.call_name(first.value) == "context.eval_ctx.save" and not first.value.args
+            inner = body[1:-1]
+            if isinstance(last, ast.Try) and len(body) == 2 and not last.handlers and not last.orelse and len(last.finalbody) == 1:
+                # save; try: <options, body> finally: revert   (the context is restored on every way out)
+                inner = [x for x in last.body if not isinstance(x, ast.Pass)]
+                last = last.finalbody[0]
             ok_last = isinstance(last, ast.Expr) and isinstance(last.value, ast.Call) and emit.call_name(last.value) == "context.eval_ctx.revert" and ok_first \
                 and len(last.value.args) == 1 and isinstance(last.value.args[0], ast.Name) and last.value.args[0].id == first.targets[0].id
             if not (ok_first and ok_last):
                 fails.append(f"scoped modifier does not save the run-time context first and revert it last: {txt!r}")
-            body = body[1:-1]
+            body = inner
         assigns = body[:n_options]
         for i, a in enumerate(assigns):
             ok = isinstance(a, ast.Assign) and emit.call_name(a.targets[0]) == "context.eval_ctx.autoescape" and isinstance(a.value, ast.Name) \
@@ -2200,9 +2280,23 @@ def extra_templates():
         ("Const", "negative-zero", "{% set x = -0.0 %}{{ x }}", "{% set x = v %}{{ x }}", {"v": -0.0}),
         ("Const", "int-2**100", "{% set x = 2 ** 100 %}{{ x }}", "{% set x = v ** 100 %}{{ x }}", {"v": 2}),
         ("Const", "negative-power-base", "{{ (1 - 4) ** x }}|{% set y = (0 - 1.5) ** x %}{{ y }}", "{{ (a - b) ** x }}|{% set y = (c - d) ** x %}{{ y }}", {"a": 1, "b": 4, "c": 0, "d": 1.5, "x": 2}),
+        ("Test", "sameas-literals", "{% set r = 1000 is sameas 1000 %}{{ r }}", "{% set r = a is sameas b %}{{ r }}", {"a": 1000, "b": 1000}),
+        ("And", "unknown-test-in-dropped-operand", "{% set r = false and (1 is nosuchtest) %}{{ r }}", "{% set r = f and (1 is nosuchtest) %}{{ r }}", {"f": False}),
+        ("Or", "unknown-filter-in-dropped-operand", "{% set r = 1 or (1|nosuchfilter) %}{{ r }}", "{% set r = t or (1|nosuchfilter) %}{{ r }}", {"t": 1}),
+        ("Mul", "shared-inner-list", "{% set x = [[]] * 2 %}{{ x[0].append(1) }}{{ x }}", "{% set x = [[]] * n %}{{ x[0].append(1) }}{{ x }}", {"n": 2}),
+        ("Filter", "macro-called-under-other-autoescape",
+         "{% macro m() %}{% set c = ['<a>', '<b>'|safe]|join(',') %}{{ c }}{% endmacro %}{% autoescape false %}{{ m() }}{% endautoescape %}|{% autoescape true %}{{ m() }}{% endautoescape %}",
+         "{% macro m() %}{% set c = L|join(',') %}{{ c }}{% endmacro %}{% autoescape false %}{{ m() }}{% endautoescape %}|{% autoescape true %}{{ m() }}{% endautoescape %}",
+         {"L": ["<a>", __import__("markupsafe").Markup("<b>")]}),
+        ("Filter", "block-inside-autoescape",
+         "{% autoescape true %}{% block b %}{% set c = ['<a>', '<b>'|safe]|join(',') %}{{ c }}{% endblock %}{% endautoescape %}",
+         "{% autoescape true %}{% block b %}{% set c = L|join(',') %}{{ c }}{% endblock %}{% endautoescape %}", {"L": ["<a>", __import__("markupsafe").Markup("<b>")]}),
         ("TemplateData", "data-and-constant", "<b>&amp;{{ '<' }}", "<b>&amp;{{ v }}", {"v": "<"}),
         ("TemplateData", "data-only", "<b>&amp;", "<b>&amp;", {}),
     ]
+
+
+OWN_AUTOESCAPE_REGIONS = {"macro-called-under-other-autoescape", "block-inside-autoescape"}
 
 
 def differential_extra(only_cls=None):
@@ -2213,6 +2307,8 @@ def differential_extra(only_cls=None):
         for envname in ("default", "finalize_tag"):
             res = {}
             for mode, (ae, wrap, mctx) in MODES.items():
+                if name in OWN_AUTOESCAPE_REGIONS and mode not in ("plain", "autoescape"):
+                    continue  # these templates bring their own autoescape regions
                 n += 3
                 res[mode] = {"optimized": (wrap.format(t=const), render_outcome(wrap.format(t=const), dict(ctx, **mctx), ENVS[envname], True, ae)),
                              "unoptimized": (wrap.format(t=const), render_outcome(wrap.format(t=const), dict(ctx, **mctx), ENVS[envname], False, ae)),
@@ -2332,6 +2428,50 @@ class Differential(FnTask):
         return (bool(hit), hit[0][1] if hit else f"{n + n2} renderings of part {self.part} agree on key {key}")
 
 
+NATIVE_CASES = [("markup-in-list", '{{ ["<b>"|safe] }}', '{{ [y|safe] }}', {"y": "<b>"}), ("markup-in-dict", '{{ {"a": "b"|safe} }}', '{{ {"a": y|safe} }}', {"y": "b"}),
+                ("markup-in-tuple", '{{ ("x"|safe, 1) }}', '{{ (y|safe, 1) }}', {"y": "x"}), ("list", "{{ [1, 2] }}", "{{ [a, 2] }}", {"a": 1}), ("sum", "{{ 1 + 2 }}", "{{ a + 2 }}", {"a": 1}),
+                ("str", '{{ "a" ~ "b" }}', '{{ y ~ "b" }}', {"y": "a"}), ("markup", '{{ "<b>"|safe }}', "{{ y|safe }}", {"y": "<b>"})]
+
+
+def native_case(name):
+    from jinja2.nativetypes import NativeEnvironment
+    for nm, const, lifted, ctx in NATIVE_CASES:
+        if nm != name:
+            continue
+        outs = []
+        for optimized, src in ((True, const), (False, const), (True, lifted)):
+            try:
+                v = NativeEnvironment(optimized=optimized).from_string(src).render(**ctx)
+                outs.append((type(v).__name__, repr(v)))
+            except Exception as ex:  # noqa
+                outs.append(("err", type(ex).__name__))
+        if len(set(outs)) > 1:
+            return f"NativeEnvironment {const!r}: optimized -> {outs[0]}, optimized=False -> {outs[1]}, constants as variables {lifted!r} -> {outs[2]}"
+    return None
+
+
+class NativeFold(FnTask):
+    """NativeCodeGenerator._output_child_to_const / _output_const_repr: a folded output child must give the same NATIVE value (bounded)"""
+
+    def __init__(self):
+        FnTask.__init__(self, PROP, "C08.bounded.native_output", None, "bounded", None)
+        self.bound_text = f"{len(NATIVE_CASES)} single-expression templates in NativeEnvironment: optimized / optimized=False / constants as variables must give the same value of the same type"
+
+    def run(self, tier, seed):
+        rs = []
+        for nm, *_ in NATIVE_CASES:
+            d = native_case(nm)
+            rs.append(Res(self.name, "refuted" if d else "bounded-ok", "native", 0, d or "", "bounded", {"native": nm} if d else None))
+        return rs
+
+    def finding_key(self, res):
+        return "native:" + (res.witness or {}).get("native", "")
+
+    def replay(self, w):
+        d = native_case(w["native"])
+        return (bool(d), d or "same native value")
+
+
 # =====================================================================================================
 # C08.fold.default / coverage table, C08.const.roundtrip
 # =====================================================================================================
@@ -2416,6 +2556,24 @@ def _nan_eq(a, b):
     return a == b
 
 
+def _alias_pattern(v):
+    """which positions of a nested container hold the very same mutable object"""
+    pos = {}
+
+    def walk(x, path):
+        if isinstance(x, (list, dict, set)):
+            pos.setdefault(id(x), []).append(path)
+        if isinstance(x, (list, tuple)):
+            for i, y in enumerate(x):
+                walk(y, path + (i,))
+        elif isinstance(x, dict):
+            for k, y in x.items():
+                walk(y, path + (repr(k),))
+
+    walk(v, ())
+    return sorted(tuple(p) for p in pos.values() if len(p) > 1)
+
+
 def roundtrip_family():
     from markupsafe import Markup
     inf, nan = float("inf"), float("nan")
@@ -2431,6 +2589,7 @@ def roundtrip_family():
         ("set0", set()), ("set1", {1}), ("frozenset0", frozenset()), ("frozenset2", frozenset({1, "a"})), ("setoftuples", {(1, 2), (3,)}),
         ("dict0", {}), ("dictmixed", {1: "a", (1, 2): [3], "k": {"n": None}}), ("dictmarkup", {"m": Markup("<i>")}),
         ("list_inf", [inf]), ("tuple_nan", (1, nan)), ("dict_inf", {"a": -inf}), ("nested_inf", [(1, {"k": [inf]})]), ("set_inf", {inf}), ("dict_infkey", {inf: 1}),
+        ("shared_list", [[]] * 2), ("shared_dict", [{}] * 2), ("shared_in_tuple", ([1],) * 2), ("shared_nested", {"a": [[0]] * 2}),
         ("tuple_bigint", (10 ** 4300,)), ("list_range", [range(3)]), ("tuple_complex", (2j, -0.0)),
     ]
     unsafe = [("object", object()), ("bytes", b"x"), ("strsubclass", type("S", (str,), {})("x")), ("list_with_bytes", [1, b"x"]), ("dict_objkey", {object(): 1}),
@@ -2472,6 +2631,9 @@ def roundtrip_case(name, v):
     except Exception as ex:  # noqa
         what = getattr(ex, "name", None) or str(ex)[:30]
         return False, f"text-raises-{type(ex).__name__}:{what}", f"visit_Const writes `{txt[:60]}` for the constant {name}; evaluating it in the template module raises {type(ex).__name__}: {ex}"
+    if _alias_pattern(back) != _alias_pattern(v):
+        return False, "shared-mutable-child", (f"visit_Const writes `{txt[:60]}` for the constant {name}, in which one mutable object occurs several times; the literal builds "
+                                               "independent copies, so a later in-place change shows up once instead of everywhere")
     if not _nan_eq(back, v):
         return False, f"different-value:{name}", f"visit_Const writes `{txt[:60]}` for the constant {name} which evaluates to {back!r}"
     if type(v) in (int, float, complex) and not (isinstance(v, float) and math.isnan(v)):
@@ -2558,7 +2720,7 @@ TASKS = (
     + signature_tasks()
     + [FnTask(PROP, "C08.fold.default", default_table, "table", lambda w: native_family_replay(None)), ExprDefault()]
     + [OutputConsistency(None), OutputConsistency("t_buf")]
-    + [Roundtrip()]
+    + [Roundtrip(), NativeFold()]
     + [OptimizerVisit(True), OptimizerVisit(False), FromUntrusted()]
     + [VisitorForwards("visit"), VisitorForwards("generic_visit"), VisitorForwards("transform")]
     + evalctx_tasks() + [SaveRevert()]
